@@ -73,6 +73,7 @@ struct PathState
     // caches keyed by z3 AST id; the expr is stored too so that the AST stays alive and its id cannot be recycled
     std::unordered_map<unsigned, std::pair<z3::expr, std::vector<int>>> syms_cache;
     std::unordered_map<unsigned, std::pair<z3::expr, bool>> lin_cache;
+    std::unordered_map<unsigned, bool> decided;  // ast id of a (simplified) condition -> outcome already on the path
     std::vector<Decision> decisions;
     std::string prefix;  // decisions to replay ('0'/'1')
     std::vector<std::string> new_prefixes;
@@ -1246,11 +1247,19 @@ bool decide(const z3::expr& cond)
     if ((int) n >= g_max_decisions)
         throw PathCut("decision bound " + std::to_string(g_max_decisions) + " reached");
     unsigned h = c.hash();
+    unsigned cid = Z3_get_ast_id(ctx(), c);
+    {
+        // the very same condition was decided earlier on this path: no new decision (deterministic, so replays agree)
+        auto it = P->decided.find(cid);
+        if (it != P->decided.end())
+            return it->second;
+    }
     if (n < P->prefix.size())
     {
         bool out = P->prefix[n] == '1';
         add_constraint(out ? c : !c);
         P->decisions.push_back({out, true, h});
+        P->decided[cid] = out;
         return out;
     }
     SolveResult rt = solve(with_slice(c), false, true);
@@ -1276,6 +1285,7 @@ bool decide(const z3::expr& cond)
     }
     add_constraint(out ? c : !c);
     P->decisions.push_back({out, forced, h});
+    P->decided[cid] = out;
     return out;
 }
 
@@ -1421,6 +1431,21 @@ void fail(const std::string& name, const std::string& detail)
             SolveResult full = solve(all, true);
             r.model = full.model;
             r.secs = full.secs;
+            if (full.verdict == "unsat")
+            {
+                // the path itself is infeasible (it was entered on an "unknown" feasibility answer): nothing failed
+                r.verdict = "unsat";
+                r.solver = full.solver;
+                record_ob(name, r, "path infeasible");
+                return;
+            }
+            if (full.verdict == "unknown")
+            {
+                r.verdict = "unknown";
+                r.solver = full.solver;
+                record_ob(name, r, detail + " (feasibility of this path unknown)");
+                return;
+            }
         }
     }
     r.verdict = "sat";
@@ -1458,6 +1483,22 @@ void witness(const std::string& label)
 }
 void note(const std::string& key, const std::string& value) { P->notes.push_back({key, value}); }
 void cut(const std::string& why) { throw PathCut(why); }
+std::vector<std::string> symbols_of(const Real& a)
+{
+    std::vector<std::string> r;
+    if (!a.id)
+        return r;
+    for (int si : syms_of(P->terms[a.id]))
+        r.push_back(P->sym_names[si]);
+    return r;
+}
+bool mentions(const Real& a, const std::string& prefix)
+{
+    for (const std::string& s : symbols_of(a))
+        if (s.compare(0, prefix.size(), prefix) == 0)
+            return true;
+    return false;
+}
 
 // ================================================================================================
 // runner
